@@ -22,6 +22,7 @@
 import MdwModel.Theorems.C16
 import MdwModel.Theorems.Plan
 import MdwModel.Model.Decode
+import MdwModel.Theorems.Image
 namespace Mdw
 
 /-- extents are consecutive from `pos` and end at `fin` -/
@@ -162,5 +163,54 @@ example : HistOk ⟨Buf.empty, []⟩
     [.alloc 4, .allocArray 2 3, .setValue 0 [1, 2, 3, 4], .allocWithVal [7], .setValueAt 1 1 [9, 9, 9]] := by
   simp [HistOk, OpOk, step, Slot.alloc, Arr.allocArray, Buf.reserve, Buf.empty, Buf.len, asU32,
     Slot.setValue, Arr.setValueAt, Buf.writeAt, zeros, Slot.allocWithVal, Buf.write, Slot.location]
+
+
+-- the whole image (closed-form model of generate_dump, Model/Dump.lean) --------------------------------------------
+
+/-- **C01 (image: header).** the header a reader decodes from the model's image of any content -/
+theorem C01_image_header (d : DumpIn) (hn : d.numWriters < 2 ^ 32) (ht : d.timestamp < 2 ^ 32) :
+    decodeHeader (Img.ofBytes (dumpBytes d)) = some ⟨MD_SIGNATURE, MD_VERSION, d.numWriters, 32, 0, d.timestamp, 0⟩ :=
+  Image_header d hn ht
+
+/-- **C01 (image: directory).** directory slot `k` holds the `k`-th published entry -/
+theorem C01_image_directory (d : DumpIn) (k : Nat) (e : DirEnt) (hk : k < d.numWriters) (he : (dumpAcc d).dir[k]? = some e)
+    (hf : e.ty < 2 ^ 32 ∧ e.size < 2 ^ 32 ∧ e.rva < 2 ^ 32) :
+    let i := Img.ofBytes (dumpBytes d)
+    i.u32 (32 + 12 * k) = some e.ty ∧ i.u32 (32 + 12 * k + 4) = some e.size ∧ i.u32 (32 + 12 * k + 8) = some e.rva :=
+  Image_dir_read d k e hk he hf
+
+/-- **C01 (image: streams).** any two published streams: both lie after the directory and wholly inside the image,
+    and the earlier one ends before the later one begins -/
+theorem C01_image_streams_disjoint (d : DumpIn) (i j : Nat) (a b : DirEnt) (hij : i < j)
+    (ha : (dumpAcc d).dir[i]? = some a) (hb : (dumpAcc d).dir[j]? = some b) (hza : a ≠ zeroEnt) (hzb : b ≠ zeroEnt) :
+    32 + 12 * d.numWriters ≤ a.rva ∧ a.rva + a.size ≤ b.rva ∧ b.rva + b.size ≤ (dumpBytes d).length :=
+  Sorted.pair (Image_streams_ordered d) i j a b hij ha hb hza hzb
+
+/-- **C01 (image: thread references).** the stack and context locations stored in thread `k`'s record designate
+    objects inside the image with the stored lengths: the captured stack bytes and the context bytes -/
+theorem C01_image_thread_refs (d : DumpIn) (k : Nat) (t : DThread) (hk : d.threads[k]? = some t)
+    (hsz : (dumpBytes d).length < 2 ^ 32) (htid : t.tid < 2 ^ 32)
+    (hstart : (match t.stack with | some (s, _) => s | none => t.sp) < 2 ^ 64) :
+    let i := Img.ofBytes (dumpBytes d)
+    let o := 32 + 12 * d.numWriters + 4 + 48 * k
+    let p := threadPos d k
+    i.u32 o = some t.tid ∧ i.u64 (o + 24) = some (match t.stack with | some (s, _) => s | none => t.sp) ∧
+    i.u32 (o + 32) = some t.stackLen ∧ i.u32 (o + 36) = some p ∧
+    i.u32 (o + 40) = some t.ctx.length ∧ i.u32 (o + 44) = some (t.ctxRva p) ∧
+    i.bytes p t.stackLen = some t.stackBytes ∧ i.bytes (t.ctxRva p) t.ctx.length = some t.ctx :=
+  Image_thread_read d k t hk hsz htid hstart
+
+/-- **C01 (image: the two intentional aliases).** a thread's stack descriptor and its memory-list block name the same
+    blob; the exception context and the blamed thread's context are the same blob -/
+theorem C01_image_aliases (d : DumpIn) (k : Nat) (t : DThread) (hk : d.threads[k]? = some t) :
+    (∀ s b, t.stack = some (s, b) → (⟨s, b.length, threadPos d k⟩ : Desc) ∈ (acc3 d).blocks) ∧
+    (t.tid = d.blamed → (∀ j t', k < j → d.threads[j]? = some t' → t'.tid ≠ d.blamed) →
+      ∃ code flags addr, At (dumpBytes d) (acc4 d).pos
+        (serExc d.blamed code flags addr t.ctx.length (t.ctxRva (threadPos d k)))) := by
+  constructor
+  · intro s b h; exact ((Image_thread_block d k t hk).1 s b h).1
+  · intro ht hl
+    have := Image_exception_listed d k t hk ht hl
+    exact ⟨_, _, _, this.2.1⟩
 
 end Mdw
